@@ -6,6 +6,7 @@ from .. import drive, forms, opsem, ref, scopes
 from ..forms import BOT, TOP, A, N, O, V
 from ..runner import Check, Result
 from .c06 import FACTS
+from .opcheck import alt_keys
 
 a, b, c = V("a"), V("b"), V("c")
 ACCEPTED = ("strong", "weak-finite", "weak-nofinite")
@@ -39,14 +40,24 @@ def effective_extended(facts, extended):
     return False if extended is None else extended
 
 
-def build(sig, conds, facts, extended, how="node"):
+class InputMutated(Exception):
+    pass
+
+
+def build(sig, conds, facts, extended, how="node", keys=None):
     from inference.preocf import PreOCF
 
-    bb = drive.mkbb(sig, conds)
+    bb = drive.mkbb(sig, conds, keys)
+    before = list(bb.conditionals.items())
     kw = {}
     if facts:
         kw["facts"] = [forms.txt(f) if how == "str" else forms.to_pysmt(f) for f in facts]
-    return PreOCF.init_system_z(bb, extended=extended, **kw)
+    obj = PreOCF.init_system_z(bb, extended=extended, **kw)
+    after = list(bb.conditionals.items())
+    if len(after) != len(before) or any(k1 != k2 or c1 is not c2 for (k1, c1), (k2, c2) in zip(before, after)):
+        raise InputMutated("constructing the ranking object changed the caller's belief base: keys %r -> %r" % (
+            [k for k, _ in before], [k for k, _ in after]))
+    return obj
 
 
 def ops_for(sig):
@@ -146,13 +157,13 @@ def bfs(res, prop, sig, conds, facts, extended, rr, validate):
     return len(seen), ntrans
 
 
-def final_checks(res, prop, sig, conds, facts, extended, rr, queries, how="node", with_operator=False):
+def final_checks(res, prop, sig, conds, facts, extended, rr, queries, how="node", with_operator=False, keys=None):
     """Construct, rank lazily in a seed-dependent order, compare everything with the reference."""
     ranks, sems, fin, inf, feas = rr
     case = {"sig": sig, "conds": [forms.ctxt(x) for x in conds], "conds_f": conds, "facts_f": facts,
-            "facts": [forms.txt(f) for f in facts], "extended": extended, "config": "object", "how": how}
+            "facts": [forms.txt(f) for f in facts], "extended": extended, "config": "object", "how": how, "keys": keys}
     try:
-        obj = build(sig, conds, facts, extended, how)
+        obj = build(sig, conds, facts, extended, how, keys)
     except Exception as e:  # noqa: BLE001
         res.evals += 1
         res.violation(prop, "construct", case, "object", drive.exc_obs(e))
@@ -213,7 +224,7 @@ class C16(Check):
     level = "model_checking"
     rule = ("E-in + E-seq on the real SystemZPreOCF objects. Objects: every semantic class of one-conditional bases and one "
             "representative per conditional structure of the pairs over {a,b} that the mode accepts, x fact lists (7 single "
-            "facts, 7 pairs; strings and nodes) x extended in {None, False, True}; structure representatives of "
+            "facts, 7 pairs; strings and nodes) x extended in {None, False, True}, with base keys 1..n / 2..n+1 / 0..n-1 / 1,3,5.. by residue class (the caller's base must not be changed by the construction); structure representatives of "
             "<=3-subsets of the literal conditionals over {a,b,c} in both modes. Per object: ranks in a rotated lazy order + "
             "compute_all_ranks == reference Z-ranks (top rank exactly on infeasible / fact-violating worlds), every base "
             "conditional outside the infinity layer accepted, acceptance == reference System Z (and == the system-z operator) "
@@ -282,7 +293,7 @@ class C16(Check):
                             res.nontrivial.add(hash((tuple(conds), tuple(facts), extended)))
                         continue
                     final_checks(res, self.id, sig, conds, facts, extended, rr, queries if fi == 0 else queries[::9], how,
-                                 with_operator=(fi == 0))
+                                 with_operator=(fi == 0), keys=alt_keys(fi + idx, len(conds)))
                     if facts in BFS_FACTS or not facts:
                         if extended is None:
                             continue
@@ -354,7 +365,7 @@ class C16(Check):
             except Exception as e:  # noqa: BLE001
                 return {"observed": drive.exc_obs(e), "violates": True}
         qs = [opsem.tup(cs["query_f"])] if cs.get("query_f") else scopes.semclass_reps(scopes.C2, scopes.SIG2) if len(sig) == 2 else []
-        final_checks(r, self.id, sig, conds, facts, cs["extended"], rr, qs, cs.get("how", "node"), with_operator=True)
+        final_checks(r, self.id, sig, conds, facts, cs["extended"], rr, qs, cs.get("how", "node"), with_operator=True, keys=cs.get("keys"))
         return {"observed": [v["observed"] for v in r.violations[:3]], "violates": bool(r.violations)}
 
 
